@@ -13,6 +13,7 @@ EXPL = ("Decides, on the type-checked MIR of /repo: (1) SA-FIELDS: Generator::re
 
 def run(ctx):
     cfgs = ["rel"] if ctx.tier == "quick" else ["rel", "dbg", "unsafe", "unsafe_dbg", "nodef", "fnv"]
+    ctx.progs(cfgs)  # build all configurations in parallel
     for c in cfgs:
         prog = ctx.prog(c)
         ctx.guard("C12", "guards", lambda: gen.guards_set_fixed(ctx, prog))
@@ -20,6 +21,7 @@ def run(ctx):
         ctx.guard("C12", "errpure", lambda: gen.errpure_set_fixed(ctx, prog))
         ctx.guard("C12", "finalize", lambda: gen.guards_finalize(ctx, prog, need=("mismatch",)))
         ctx.guard("C12", "delegate", lambda: gen.finalizers_delegate(ctx, prog))
+        ctx.guard("C12", "writers", lambda: gen.field_writers(ctx, prog))
         ctx.guard("C12", "reset", lambda: gen.reset_equals_new(ctx, prog))
         ctx.guard("C12", "reset-side", lambda: gen.reset_side_conditions(ctx, prog))
     return ctx.finish(EXPL, ["rustc MIR faithfully represents the program", "symbolic values of single-assignment MIR temporaries compared as canonical text"])
